@@ -41,6 +41,7 @@ import (
 	"github.com/simimpact/srsim/pkg/model"
 	"github.com/simimpact/srsim/pkg/servermode"
 	"github.com/simimpact/srsim/pkg/simulation"
+	"google.golang.org/protobuf/proto"
 	"google.golang.org/protobuf/types/known/structpb"
 	"verifharness/wire"
 )
@@ -141,6 +142,9 @@ func realConfig(op *wire.Rec) *model.SimConfig {
 					rl := &model.Relic{Key: rk, MainStat: &model.RelicStat{Stat: model.Property_ATK_PERCENT, Amount: 0.1}}
 					if quirk&4 != 0 {
 						rl.SubStats = []*model.RelicStat{{Stat: model.Property_SPD_FLAT, Amount: 2.5}, {Stat: model.Property_CRIT_CHANCE, Amount: 0.03}, {Stat: model.Property_HP_PERCENT, Amount: 0.04}}
+						if (i+j)%2 == 1 { // a slot left empty between filled ones (a relic with fewer sub stats than slots)
+							rl.SubStats = []*model.RelicStat{{Stat: model.Property_SPD_FLAT, Amount: 2.5}, {}, {Stat: model.Property_DEF_FLAT, Amount: 20}, {Stat: model.Property_ATK_PERCENT, Amount: 0.05}}
+						}
 					}
 					ch.Relics = append(ch.Relics, rl)
 				}
@@ -240,7 +244,11 @@ func realRun(op *wire.Rec, withLog bool) (out *realOut) {
 		if ev == nil {
 			ev = eval.New(context.TODO(), list.Program)
 		}
-		res, err = simulation.Run(&simulation.RunOpts{Config: realConfig(op), Eval: ev, Seed: int64(op.Int("seed")), Loggers: loggers})
+		cfg := realCfgReuse // one configuration value handed to several runs (as the worker pools do with every job of a batch)
+		if cfg == nil {
+			cfg = realConfig(op)
+		}
+		res, err = simulation.Run(&simulation.RunOpts{Config: cfg, Eval: ev, Seed: int64(op.Int("seed")), Loggers: loggers})
 	}()
 	select {
 	case p := <-done:
@@ -275,6 +283,9 @@ func realRun(op *wire.Rec, withLog bool) (out *realOut) {
 
 // when set, realRun hands this evaluator to the run instead of a new one
 var realEvalReuse *eval.Eval
+
+// when set, realRun hands this configuration value to the run instead of building a new one
+var realCfgReuse *model.SimConfig
 
 var invalidKeyRe = regexp.MustCompile(`invalid (character|enemy)|(light ?cone|relic)[^:]*not|not registered|invalid light|invalid relic|unknown (character|light|relic|enemy)`)
 
@@ -507,6 +518,24 @@ func (realComp) Exec(c *wire.Case, w *wire.Writer) {
 				later := realRun(op, false)
 				if m := len(o.lg.lines); m != n {
 					w.Ob(wire.R("differs").S("where", "later-run-logs").I("rep", len(prev)).I("line", n).S("a", fmt.Sprintf("<%d_lines_when_the_run_ended>", n)).S("b", clip(o.lg.lines[n])).S("kinds", o.kind+"/"+later.kind))
+				}
+			}
+			// the same configuration VALUE for several runs, as the worker pools hand one to every job of a batch: a run
+			// reads its configuration, it does not write to it
+			if o.kind == "result" {
+				shared := realConfig(op)
+				before := proto.Clone(shared)
+				realCfgReuse = shared
+				var last *realOut
+				for i := 0; i < 2; i++ {
+					last = realRun(op, true)
+				}
+				realCfgReuse = nil
+				if last.digest() != o.digest() {
+					at, a, b := firstDiff(o.lines, last.lines)
+					w.Ob(wire.R("differs").S("where", "shared-config").I("rep", len(prev)).I("line", at).S("a", clip(a)).S("b", clip(b)).S("kinds", o.kind+"/"+last.kind))
+				} else if !proto.Equal(before, shared) {
+					w.Ob(wire.R("differs").S("where", "shared-config").I("rep", len(prev)).I("line", -1).S("a", "<the_configuration_before_the_runs>").S("b", "<the_configuration_was_written_to>").S("kinds", o.kind+"/"+last.kind))
 				}
 			}
 			// the same run through the server's sample endpoint (pkg/servermode/sample.go), after all the others: its log is this run's log
